@@ -341,6 +341,70 @@ fn history_op(n: i64, rng: &mut Rng) -> (String, Vec<String>, u64) {
   }
 }
 
+/// all worker threads list the same few containers (8 neighbouring lunar years, half of them leap; their months;
+/// the civil months and sexagenary months of the same years) over and over at the same time: a listing must not
+/// depend on what another thread is listing at that moment
+fn storm(i: usize, cfg: &Cfg, log: &mut Log) {
+  let seq = lunar_seq();
+  let c = cal();
+  let mut rng = Rng::new(mix(cfg.seed, (i / 4000) as u64 ^ 0x5C13));
+  // one neighbourhood per 4,000 listings, shared by all threads
+  let y0 = rng.range(40, 9980);
+  let mut r2 = Rng::new(mix(cfg.seed, i as u64 ^ 0x6C13));
+  let y = y0 + r2.range(0, 7);
+  if (230..=245).contains(&y) {
+    return;
+  }
+  log.ev(1);
+  log.count("storm.listings", 1);
+  match r2.below(4) {
+    0 | 1 => {
+      let want: Vec<(i64, i64)> = seq.year_slice(y).iter().map(|m| (m.y, m.m)).collect();
+      match guard(|| {
+        let ly = LunarYear::from_year(y as isize);
+        (ly.get_months().iter().map(lym).collect::<Vec<(i64, i64)>>(), ly.get_month_count() as usize)
+      }) {
+        Ok((got, count)) => {
+          if got != want || count != want.len() {
+            log.violate(format!("C13/storm-lunar-year-months/{:04}", y), "LunarYear::get_months while other threads list other years", format!("{}", y), format!("{:?} (count {})", got, count), format!("{:?}", want));
+          }
+        }
+        Err(msg) => log.violate(format!("C13/storm-lunar-year-months/{:04}", y), "LunarYear::get_months while other threads list other years", format!("{}", y), format!("panic: {}", msg), format!("{:?}", want)),
+      }
+    }
+    2 => {
+      let sl = seq.year_slice(y);
+      let lm = sl[r2.below(sl.len())];
+      if lm.first < FIRST || lm.first + lm.days - 1 > LAST {
+        return;
+      }
+      match guard(|| LunarMonth::from_ym(lm.y as isize, lm.m as isize).get_days().iter().map(|d| (lymd(d), dn_of(&d.get_solar_day()))).collect::<Vec<_>>()) {
+        Ok(got) => {
+          let want: Vec<(Lymd, Option<i64>)> = (1..=lm.days).map(|d| ((lm.y, lm.m, d), Some(lm.first + d - 1))).collect();
+          if got != want {
+            log.violate(format!("C13/storm-lunar-month-days/{}", fmt_lym(lm.y, lm.m)), "LunarMonth::get_days while other threads list other months", fmt_lym(lm.y, lm.m), format!("{} days, first {:?}", got.len(), got.first()), format!("{} days from {}", want.len(), lm.first));
+          }
+        }
+        Err(msg) => log.violate(format!("C13/storm-lunar-month-days/{}", fmt_lym(lm.y, lm.m)), "LunarMonth::get_days while other threads list other months", fmt_lym(lm.y, lm.m), format!("panic: {}", msg), "the month's days".into()),
+      }
+    }
+    _ => {
+      let m = r2.range(1, 12);
+      let mi = ((y - 1) * 12 + m - 1) as usize;
+      let (first, next) = (c.month_first[mi], c.month_first[mi + 1]);
+      match guard(|| SolarMonth::from_ym(y as isize, m as usize).get_days().iter().map(dn_of).collect::<Vec<_>>()) {
+        Ok(got) => {
+          let want: Vec<Option<i64>> = (first..next).map(Some).collect();
+          if got != want {
+            log.violate(format!("C13/storm-month-days/{:04}-{:02}", y, m), "SolarMonth::get_days while other threads list other months", format!("{:04}-{:02}", y, m), format!("{} days", got.len()), format!("{} days", want.len()));
+          }
+        }
+        Err(msg) => log.violate(format!("C13/storm-month-days/{:04}-{:02}", y, m), "SolarMonth::get_days while other threads list other months", format!("{:04}-{:02}", y, m), format!("panic: {}", msg), "the month's days".into()),
+      }
+    }
+  }
+}
+
 pub fn run(cfg: &Cfg) -> (Log, Meta) {
   crate::util::set_thread_cap(10);
   let mut log = Log::new();
@@ -376,12 +440,15 @@ pub fn run(cfg: &Cfg) -> (Log, Meta) {
     log.floor("sixty.months_listed", cfg.tier.pick(3_000, 100_000));
     log.floor("hours.days_sampled", cfg.tier.pick(1_000, 100_000));
   }
+  let nstorm = cfg.tier.pick(200_000usize, 3_000_000usize);
+  log.merge(par_range(nstorm, 16, |i, l| storm(i, cfg, l)));
+  log.floor("storm.listings", cfg.tier.pick(150_000, 2_500_000));
   log.floor("civil.months_listed", 119_988);
   log.floor("civil.october_1582_listed", 1);
   log.floor("lunar.months_listed", cfg.tier.pick(10_000, 120_000));
   let meta = Meta {
     rule: format!(
-      "civil containers exhaustive (every year 1..9999: 2 halves, 4 seasons, 12 months nested; every month's day list = the existing dates in order, length = day count, day-of-year = position in the concatenation, year length = sum); lunar: month list and day list (labels 1..n and consecutive civil days) of every month of {} lunar years; hour lists (13 lunar-day slots, 12 sexagenary-day slots with roll-over at 23:00 and Five-Rats hour pillars) on {} seeded-random days (1/10 around the 1582 cut-over); day lists of the 12 sexagenary months of {} years against Jie days; histories: {} seeded single-thread sequences of 6..16 lists (the civil month, lunar month and sexagenary month a day lies in, the civil year's months and lengths with the day of year, the lunar year's month list) on related days - {}. Non-trivial = leap years, October 1582, leap lunar months, sexagenary months, distinct sampled days.",
+      "civil containers exhaustive (every year 1..9999: 2 halves, 4 seasons, 12 months nested; every month's day list = the existing dates in order, length = day count, day-of-year = position in the concatenation, year length = sum); lunar: month list and day list (labels 1..n and consecutive civil days) of every month of {} lunar years; hour lists (13 lunar-day slots, 12 sexagenary-day slots with roll-over at 23:00 and Five-Rats hour pillars) on {} seeded-random days (1/10 around the 1582 cut-over); day lists of the 12 sexagenary months of {} years against Jie days; a storm of listings (lunar years, lunar months, civil months of 8 neighbouring years per 4,000 listings) on all worker threads at once; histories: {} seeded single-thread sequences of 6..16 lists (the civil month, lunar month and sexagenary month a day lies in, the civil year's months and lengths with the day of year, the lunar year's month list) on related days - {}. Non-trivial = leap years, October 1582, leap lunar months, sexagenary months, distinct sampled days.",
       lyears.len(),
       cfg.tier.pick(2_000, 200_000),
       match cfg.tier {
